@@ -61,3 +61,9 @@ CHECKS["C07"] = dict(
           "literals wrapped around YYYY.MM and anchored ones, the real compile_pattern(...).regexp.search(line) spans are recorded as `search` events and compared with the "
           "spec's Search; `bumpver grep` is driven end to end on a sample."),
     note=_NOTE, ref="DESIGN.md section 6, C07")
+CHECKS["C20"] = dict(
+    technique="TLA+ spec of the legacy engine (BVLegacy) model-checked with TLC + trace validation of v1 render/parse/incr and of `bumpver test`/`update`/`show` with legacy patterns",
+    text=("Design level: 23 documented legacy version patterns x dates x build ids x tags x applicable flag sets: the rendering of a state is accepted by its pattern, reads back "
+          "with the same parts and re-renders; a bumped version is greater under VerCmp (for {pycalver} also as a plain string). Conformance: rt1 and incr1 events from v1version and "
+          "`bumpver test V '{...}'`, CLI chains of 200 (thorough 1,000) bumps, and per pattern the same inputs through `test`, `update --dry`, `update` and `show`, which must agree."),
+    note=_NOTE, ref="DESIGN.md section 6, C20")
